@@ -1,8 +1,157 @@
-//! Self-check of the reference against RFC vectors; failure makes a run inconclusive.
-pub fn run() -> Result<(), String> {
-    // CRC-24 of the empty string is the initial value; RFC example check below
-    if super::armor::crc24(b"") != 0xB704CE {
+//! Self-check of the reference against RFC 9580 Appendix A vectors (public test data, copies under
+//! mon/vectors). A failure makes every run *inconclusive (harness fault)*, never a violation.
+
+use super::armor::{armor_parse_strict, crc24};
+use super::frame::deframe;
+use super::key::{x25519_unwrap, RefPub, RefSecret};
+use super::sig::{parse_ops, parse_sig};
+use super::sym::{seipd_v1_decrypt, seipd_v2_decrypt, skesk_v4_decrypt, skesk_v6_decrypt};
+
+const A3: &str = include_str!("../../vectors/a3.asc");
+const A4: &str = include_str!("../../vectors/a4.asc");
+const A7: &str = include_str!("../../vectors/a7.asc");
+const A8: &str = include_str!("../../vectors/a8.asc");
+const EAX: &str = include_str!("../../vectors/eax.msg");
+const OCB: &str = include_str!("../../vectors/ocb.msg");
+const GCM: &str = include_str!("../../vectors/gcm.msg");
+const ARGON: [&str; 3] = [
+    include_str!("../../vectors/argon2-aes128.msg"),
+    include_str!("../../vectors/argon2-aes192.msg"),
+    include_str!("../../vectors/argon2-aes256.msg"),
+];
+
+fn dearmor(s: &str) -> Result<Vec<u8>, String> {
+    let s = s.replace("\r\n", "\n");
+    let a = armor_parse_strict(s.trim_end_matches('\n')).or_else(|_| armor_parse_strict(&s))?;
+    if let Some(c) = a.crc {
+        if c != crc24(&a.data) {
+            return Err("crc24 of RFC sample does not match".into());
+        }
+    }
+    Ok(a.data)
+}
+
+/// literal packet body -> data
+fn literal_data(body: &[u8]) -> Option<&[u8]> {
+    let nl = *body.get(1)? as usize;
+    body.get(2 + nl + 4..)
+}
+
+pub fn run(full: bool) -> Result<(), String> {
+    if crc24(b"") != 0xB704CE {
         return Err("crc24 init".into());
+    }
+    // A.3 certificate: fingerprint
+    let cert = dearmor(A3)?;
+    let pk = deframe(&cert)?;
+    let (primary, n) = RefPub::parse_prefix(&pk[0].body).ok_or("A.3 primary parse")?;
+    if n != pk[0].body.len() {
+        return Err("A.3 primary trailing".into());
+    }
+    let fp = hex::encode_upper(primary.fingerprint());
+    if fp != "CB186C4F0609A697E4D52DFA6C722B0C1F1E27C18A56708F6525EC27BAD9ACC9" {
+        return Err(format!("A.3 fingerprint {fp}"));
+    }
+    if hex::encode_upper(primary.key_id()) != "CB186C4F0609A697" {
+        return Err("A.3 key id".into());
+    }
+    let sub = pk.iter().find(|p| p.tag == 14).ok_or("A.3 subkey")?;
+    let (subkey, _) = RefPub::parse_prefix(&sub.body).ok_or("A.3 subkey parse")?;
+    if hex::encode_upper(subkey.fingerprint())
+        != "12C83F1E706F6308FE151A417743A1F033790E93E9978488D1DB378DA9930885"
+    {
+        return Err("A.3 subkey fingerprint".into());
+    }
+
+    // A.3 direct key signature and subkey binding: digest prefix and Ed25519 verification
+    let vk = ed25519_dalek::VerifyingKey::from_bytes(
+        primary.material[..32].try_into().map_err(|_| "ed key")?,
+    )
+    .map_err(|e| e.to_string())?;
+    let check_sig = |body: &[u8], content: &[&[u8]]| -> Result<(), String> {
+        let s = parse_sig(body)?;
+        let d = s.digest_over(content).ok_or("digest")?;
+        if d[..2] != s.left16 {
+            return Err(format!("left16 mismatch for sig type {:#x}", s.typ));
+        }
+        let sig = ed25519_dalek::Signature::from_slice(&s.sig_data).map_err(|e| e.to_string())?;
+        vk.verify_strict(&d, &sig).map_err(|e| format!("ed25519 verify: {e}"))
+    };
+    let kf = super::sig::key_hash_framing(&pk[0].body);
+    let skf = super::sig::key_hash_framing(&sub.body);
+    let sigs: Vec<_> = pk.iter().filter(|p| p.tag == 2).collect();
+    if sigs.len() != 2 {
+        return Err("A.3 signature count".into());
+    }
+    check_sig(&sigs[0].body, &[&kf])?;
+    check_sig(&sigs[1].body, &[&kf, &skf])?;
+
+    // A.7 inline signed message
+    let m = deframe(&dearmor(A7)?)?;
+    if m.len() != 3 || m[0].tag != 4 || m[1].tag != 11 || m[2].tag != 2 {
+        return Err("A.7 structure".into());
+    }
+    let ops = parse_ops(&m[0].body)?;
+    let s = parse_sig(&m[2].body)?;
+    if ops.salt != s.salt || ops.issuer != primary.fingerprint() {
+        return Err("A.7 ops".into());
+    }
+    let data = literal_data(&m[1].body).ok_or("A.7 literal")?;
+    {
+        let d = s.digest_document(data).ok_or("A.7 digest")?;
+        if d[..2] != s.left16 {
+            return Err("A.7 left16".into());
+        }
+        let sig = ed25519_dalek::Signature::from_slice(&s.sig_data).map_err(|e| e.to_string())?;
+        vk.verify_strict(&d, &sig).map_err(|e| format!("A.7 verify: {e}"))?;
+    }
+
+    // A.4 secret key + A.8 X25519 / SEIPDv2 OCB message
+    let tsk = deframe(&dearmor(A4)?)?;
+    let ssub = tsk.iter().find(|p| p.tag == 7).ok_or("A.4 subkey")?;
+    let sec = RefSecret::parse(&ssub.body).ok_or("A.4 secret parse")?;
+    let material = sec.unlock(7, b"").ok_or("A.4 unlock")?.map_err(|_| "A.4 unlock err")?;
+    let msg = deframe(&dearmor(A8)?)?;
+    let pkesk = &msg[0].body;
+    // v6 PKESK: version, fp len, fp version, fp, alg, ephemeral 32, len, wrapped
+    if pkesk[0] != 6 || pkesk[1] != 33 || pkesk[2] != 6 || pkesk[35] != 25 {
+        return Err("A.8 pkesk layout".into());
+    }
+    let eph: [u8; 32] = pkesk[36..68].try_into().unwrap();
+    let l = pkesk[68] as usize;
+    let wrapped = &pkesk[69..69 + l];
+    let sk = x25519_unwrap(material[..32].try_into().unwrap(), &eph, wrapped).ok_or("A.8 unwrap")?;
+    if hex::encode(&sk) != "dd708f6fa1ed65114d68d2343e7c2f1d" {
+        return Err(format!("A.8 session key {}", hex::encode(&sk)));
+    }
+    let inner = seipd_v2_decrypt(&msg[1].body, &sk).map_err(|e| format!("A.8 seipd {e:?}"))?;
+    let ip = deframe(&inner)?;
+    if literal_data(&ip[0].body) != Some(b"Hello, world!") {
+        return Err("A.8 plaintext".into());
+    }
+
+    // A.9-A.11 SKESK v6 + SEIPDv2, password "password"
+    for (name, a) in [("eax", EAX), ("ocb", OCB), ("gcm", GCM)] {
+        let m = deframe(&dearmor(a)?)?;
+        let sk = skesk_v6_decrypt(&m[0].body, b"password")
+            .ok_or(format!("{name} skesk unsupported"))?
+            .map_err(|_| format!("{name} skesk auth"))?;
+        let inner = seipd_v2_decrypt(&m[1].body, &sk).map_err(|e| format!("{name} seipd {e:?}"))?;
+        let ip = deframe(&inner)?;
+        if literal_data(&ip[0].body) != Some(b"Hello, world!") {
+            return Err(format!("{name} plaintext"));
+        }
+    }
+    // A.12 Argon2 SKESK v4 + SEIPDv1 (2 GiB of memory, ~3 s each: only in the full self-check,
+    // which the driver runs once per reference source revision)
+    for a in ARGON.iter().take(if full { 3 } else { 0 }) {
+        let m = deframe(&dearmor(a)?)?;
+        let (alg, sk) = skesk_v4_decrypt(&m[0].body, b"password").ok_or("argon2 skesk")?;
+        let inner = seipd_v1_decrypt(alg, &sk, &m[1].body[1..]).map_err(|e| format!("argon2 seipd {e:?}"))?;
+        let ip = deframe(&inner)?;
+        if literal_data(&ip[0].body) != Some(b"Hello, world!") {
+            return Err("argon2 plaintext".into());
+        }
     }
     Ok(())
 }
